@@ -46,6 +46,15 @@ type RecDB struct {
 	FailAfter bool
 	nwrites   int
 	Failed    int // number of writes that were made to fail
+	// OnOp, when set, runs at the start of every database operation (get, has, put, del, batch)
+	// on the calling goroutine: the deterministic interleaving device of the race scenarios
+	OnOp func(kind string, key []byte)
+}
+
+func (d *RecDB) hook(kind string, key []byte) {
+	if f := d.OnOp; f != nil {
+		f(kind, key)
+	}
 }
 
 var ErrInjected = errors.New("injected write failure")
@@ -73,12 +82,14 @@ func (d *RecDB) SetFailAt(n int, dead bool) {
 }
 
 func (d *RecDB) Put(k, v []byte) error {
+	d.hook("put", k)
 	if !d.admit(Rec{false, []KV{{false, common.CopyBytes(k), common.CopyBytes(v)}}}) {
 		return ErrInjected
 	}
 	return d.Inner.Put(k, v)
 }
 func (d *RecDB) Delete(k []byte) error {
+	d.hook("del", k)
 	if !d.admit(Rec{false, []KV{{true, common.CopyBytes(k), nil}}}) {
 		return ErrInjected
 	}
@@ -114,8 +125,8 @@ func Materialise(base map[string][]byte, recs []Rec) *RecDB {
 	}
 	return d
 }
-func (d *RecDB) Get(k []byte) ([]byte, error) { return d.Inner.Get(k) }
-func (d *RecDB) Has(k []byte) (bool, error)   { return d.Inner.Has(k) }
+func (d *RecDB) Get(k []byte) ([]byte, error) { d.hook("get", k); return d.Inner.Get(k) }
+func (d *RecDB) Has(k []byte) (bool, error)   { d.hook("has", k); return d.Inner.Has(k) }
 func (d *RecDB) Close()                       {}
 func (d *RecDB) NewBatch() aquadb.Batch       { return &recBatch{db: d} }
 
@@ -147,6 +158,7 @@ func (b *recBatch) Delete(k []byte) error {
 func (b *recBatch) ValueSize() int { return b.size }
 func (b *recBatch) Reset()         { b.ops = b.ops[:0]; b.size = 0 }
 func (b *recBatch) Write() error {
+	b.db.hook("batch", nil)
 	if !b.db.admit(Rec{true, append([]KV(nil), b.ops...)}) {
 		return ErrInjected
 	}
